@@ -2,6 +2,9 @@ import FormulaicVerif.Model.Parser
 import FormulaicVerif.Proofs.C15
 import FormulaicVerif.Proofs.C15Spans
 import FormulaicVerif.Proofs.C15Ws
+import FormulaicVerif.Proofs.C15Text
+import FormulaicVerif.Proofs.C15Kinds
+import FormulaicVerif.Proofs.C15Quote
 /-! # C15 — Lexing is whitespace-insensitive, quote-faithful and normalises Python code
 
 Property theorems only (helpers: `Proofs/C15.lean`), about `Model.tokenize`/`Model.lexStep`, the
@@ -17,9 +20,15 @@ ends the pending token.
 Whole-string whitespace insensitivity is `ws_insensitive` below (one whitespace character inserted at
 any safe gap; iterate for arbitrary re-spacing).
 
-FULL (unproved): `span_delimits_text` (the span slices back to the token
-text) and `brace_verbatim`/`call_verbatim` — covered by the correspondence and the span/verbatim
-oracles only.
+Also proved for ALL inputs (one case analysis of the loop, `Proofs/C15Step.lean`, instantiated with
+two invariants): `span_delimits_text` (each token's text is a subsequence of the source characters
+inside its span, ends with the character at `stop`, and starts with the character at `start` unless
+that is the quote character that opened the token) and `tokens_have_kinds` (every emitted token has a
+kind and a non-empty text). `quoted_verbatim`/`brace_verbatim`: `{body}`, `` `body` `` and `%body%`
+are ONE token with the body verbatim whenever the body leaves the quote stack as it found it.
+
+FULL (unproved): `call_verbatim` (`f(…)` at top level) — covered by the correspondence and the
+span/verbatim oracles only.
 The backslash exclusion in `backtick_verbatim` is not decoration: known finding C15-F1. -/
 namespace FormulaicVerif.Props.C15
 open FormulaicVerif FormulaicVerif.Model
@@ -90,6 +99,82 @@ theorem positions_irrelevant (cs : List CharInfo) (i j : Nat) (s s' : LexState) 
 example :
     (tokenize ("f(x)".toList.map (fun c => { c := c, word := c.isAlpha, space := c == ' ' }))).map (·.length) = .ok 1 ∧
     (tokenize ("f (x)".toList.map (fun c => { c := c, word := c.isAlpha, space := c == ' ' }))).map (·.length) = .ok 4 := by
+  decide +kernel
+
+/-- C15.5  **The span delimits the text.** For EVERY string that tokenises and every token of it:
+the span `start = a ≤ stop = b` lies inside the string; the token's text is a subsequence, in order,
+of the source characters at positions `a … b` (nothing from outside the span, nothing reordered; what
+may be missing is unquoted whitespace inside an operator run, and the opening quote character); the
+last character of the text is the source character at `b`; and the first character of the text is the
+source character at `a` — unless position `a` holds the `%`, `{` or backtick that opened the token, in
+which case the text is a subsequence of positions `a+1 … b`. -/
+theorem span_delimits_text (cs : List CharInfo) (ts : List Tok) (h : tokenize cs = .ok ts) :
+    ∀ t ∈ ts, ∃ a b, t.start = some a ∧ t.stop = some b ∧ a ≤ b ∧ b < cs.length ∧
+      t.text.Sublist (((cs.map (·.c)).drop a).take (b + 1 - a)) ∧
+      t.text.getLast? = (cs.map (·.c))[b]? ∧
+      (t.text.head? = (cs.map (·.c))[a]? ∨
+        (((cs.map (·.c))[a]? = some '%' ∨ (cs.map (·.c))[a]? = some '{' ∨ (cs.map (·.c))[a]? = some '`') ∧
+          t.text.Sublist (((cs.map (·.c)).drop (a + 1)).take (b - a)))) :=
+  Proofs.C15Text.span_delimits_text cs ts h
+
+/-- the hypothesis is satisfiable, and "subsequence" cannot be improved to "equal": the operator run
+`~ - +` has text `~-+` with span 2…6, and the backtick name `a b` has span 7…10 starting at its quote -/
+example : tokenize ("y ~ - +`a b`:{f(x)+1}".toList.map
+      (fun c => { c := c, word := c.isAlphanum, space := c == ' ' }))
+    = .ok [{ text := "y".toList, kind := some .name, start := some 0, stop := some 0 },
+           { text := "~-+".toList, kind := some .operator, start := some 2, stop := some 6 },
+           { text := "a b".toList, kind := some .name, start := some 7, stop := some 10 },
+           { text := ":".toList, kind := some .operator, start := some 12, stop := some 12 },
+           { text := "f(x)+1".toList, kind := some .python, start := some 13, stop := some 19 }] := by
+  decide +kernel
+
+/-- C15.6  Every token of every string that tokenises has a kind and a non-empty text. (Inside the
+loop a kind-less pending token exists only while it is still empty, at top level; an empty quoted
+token such as `{}` is dropped, not emitted.) -/
+theorem tokens_have_kinds (cs : List CharInfo) (ts : List Tok) (h : tokenize cs = .ok ts) :
+    ∀ t ∈ ts, t.kind ≠ none ∧ t.text ≠ [] :=
+  Proofs.C15Kinds.tokens_have_kinds cs ts h
+
+/-- empty quotes give no token at all (rather than a token with empty text) -/
+example : tokenize ("a{}+%%``".toList.map (fun c => { c := c, word := c.isAlphanum, space := c == ' ' }))
+    = .ok [{ text := "a".toList, kind := some .name, start := some 0, stop := some 0 },
+           { text := "+".toList, kind := some .operator, start := some 3, stop := some 3 }] := by
+  decide +kernel
+
+/-- C15.3  **Quoted tokens are verbatim** (general form). If the body of `{body}`, `` `body` `` or
+`%body%` is non-empty and leaves the quote stack as it found it — `Proofs.C15Quote.qRun` is the
+stack machine: brackets and string quotes opened inside `{…}` are closed again, escapes are complete,
+the outer closer is not met early — the string is ONE token of the quote's kind (python / name /
+operator) whose text is the body, character for character. -/
+theorem quoted_verbatim (body : List CharInfo) (op cl : CharInfo) (c : Char) (k : TKind)
+    (ho : Proofs.C15Quote.Opener op.c c k) (hcl : cl.c = c) (hne : body ≠ [])
+    (hrun : Proofs.C15Quote.qRun [c] 0 (body.map (·.c)) = some ([c], 0)) :
+    tokenize (op :: body ++ [cl]) =
+      .ok [{ text := body.map (·.c), kind := some k, start := some 0, stop := some body.length }] :=
+  Proofs.C15Quote.quoted_verbatim body op cl c k ho hcl hne hrun
+
+/-- C15.3a  A brace-quoted Python fragment containing no backslash, brace, backtick, string quote or
+opening bracket is ONE python token whose text is the fragment verbatim. -/
+theorem brace_verbatim (body : List CharInfo) (ob cb : CharInfo)
+    (hb : ∀ ci ∈ body, Proofs.C15Quote.BraceSafe ci) (hne : body ≠ []) (h1 : ob.c = '{') (h2 : cb.c = '}') :
+    tokenize (ob :: body ++ [cb]) =
+      .ok [{ text := body.map (·.c), kind := some .python, start := some 0, stop := some body.length }] :=
+  Proofs.C15Quote.brace_verbatim body ob cb hb hne h1 h2
+
+/-- operators, spaces, closing brackets and `%` inside braces are all kept -/
+example : tokenize ("{x + 1) %*~}".toList.map (fun c => { c := c, word := c.isAlphanum, space := c == ' ' }))
+    = .ok [{ text := "x + 1) %*~".toList, kind := some .python, start := some 0, stop := some 10 }] := by
+  decide +kernel
+
+/-- the balanced case is covered by `quoted_verbatim`: a closing brace inside a string inside a call,
+an index, a backtick name — the stack machine returns to `['}']` -/
+example : Proofs.C15Quote.qRun ['}'] 0 "f(\"}\", [1, 2])['k'] + `x`".toList = some (['}'], 0) := by
+  decide +kernel
+
+/-- the side conditions are not decoration: an escaped closer and an unclosed bracket swallow the closing brace -/
+example :
+    tokenize ("{a\\}".toList.map (fun c => { c := c, word := c.isAlphanum, space := false })) = .error .unterminated ∧
+    tokenize ("{a(}".toList.map (fun c => { c := c, word := c.isAlphanum, space := false })) = .error .unterminated := by
   decide +kernel
 
 end FormulaicVerif.Props.C15
